@@ -15,6 +15,8 @@ import PyTealV.Cmd.C04
 import PyTealV.Cmd.C08
 import PyTealV.Cmd.C14
 import PyTealV.Cmd.C18
+import PyTealV.Cmd.Arc4
+import PyTealV.Cmd.C19
 namespace PyTealV.Cmd
 
 def extraCommands : List (String × (List String → String)) := [
@@ -49,7 +51,13 @@ def extraCommands : List (String × (List String → String)) := [
   ("c14-view", C14.view), ("c14-pack", C14.pack), ("c14-fields", C14.fields),
   ("c18-strip", C18.strip), ("c18-splitlines", C18.splitlinesCmd), ("c18-commentop", C18.commentop), ("c18-commentexpr", C18.commentexpr),
   ("c18-comment", C18.commentCmd), ("c18-assert", C18.assertCmd), ("c18-header", C18.headerCmd),
-  ("c18-instr", C18.instr), ("c18-recorded", C18.recorded)
+  ("c18-instr", C18.instr), ("c18-recorded", C18.recorded),
+  ("arc4-descr", Arc4.descr),
+  ("arc4-encode", Arc4.encodeCmd),
+  ("arc4-decode", Arc4.decodeCmd),
+  ("arc4-norm", Arc4.normCmd),
+  ("c19-assignable", C19.assignableCmd),
+  ("c19-classes", C19.classesCmd)
 ]
 
 def dispatch (cmd : String) (args : List String) : Option String :=
